@@ -33,6 +33,10 @@ def plan(tier, seed):
     for i in range(n):
         specs.append({"kind": "programs", "part": i, "parts": n, "seed": seed, "tier": tier, "idx": idx})
         idx += 1
+    # block instructions with counts beyond one byte / beyond a few thousand iterations (the counter is 16 bits wide)
+    for i in range(4 if tier == "quick" else 16):
+        specs.append({"kind": "bigcount", "part": i, "seed": seed, "tier": tier, "idx": idx})
+        idx += 1
     return specs
 
 
@@ -151,6 +155,26 @@ def run_shard(spec) -> Result:
                 batch = []
         if batch:
             run_batch(res, batch)
+    elif spec["kind"] == "bigcount":
+        # MVL/MVLD/EXL and the register-indirect block forms with I in {0x100, 0x101, 0x1FF, 0x234, 0x2001}: both cores
+        # must move exactly I elements (pointers advance by I, I ends at 0); internal-memory sides wrap identically
+        ops = [0xCB, 0xCF, 0xC3, 0xD3, 0xDB, 0xE3, 0xEB, 0x56, 0x5E]
+        counts = [0x100, 0x101, 0x1FF, 0x234] + ([0x2001] if spec["part"] == 0 else [])
+        batch = []
+        for op in ops:
+            for cnt in counts:
+                if cnt > 0x1000 and op not in (0xCB, 0xC3, 0xE3):
+                    continue
+                b2 = {0xE3: 0x24, 0xEB: 0x24, 0x56: 0x84, 0x5E: 0x84}.get(op, r.randrange(0x10, 0x60))
+                pfx = r.choice((None, 0x32, 0x22, 0x36))
+                case = states.build_case(r, pfx, op, b2, "dist", small_payload=True, canonical=True, icount=cnt)
+                if case is None:
+                    continue
+                case["regs"]["FHI"] = 0
+                case["regs"]["I"] = cnt
+                batch.append(case)
+        res.count("bigcount_cases", len(batch))
+        run_batch(res, batch)
     else:
         from .. import programs
         n = (2000 if spec["tier"] == "quick" else 40000) // spec["parts"]
